@@ -207,6 +207,23 @@ def bounded_plain_roundtrip(tier, seed):
                 f = plain_roundtrip_case(sig, vals, off, le, rnd)
                 if f:
                     return n, f, {'signature': sig, 'values': repr(vals), 'offset': off, 'little_endian': le}
+    # variants whose signature txdbus infers from plain Python values (incl. the mixed containers of the repaired defects)
+    from txdbus import marshal as _m
+    inferred = [([1, _m.Int64(2**40)], [1, 2**40]), ({'small': 1, 'big': _m.UInt64(2**63)}, {'small': 1, 'big': 2**63}), ({'a': -1, 'b': True}, {'a': -1, 'b': True}),
+                ([5, True], [5, True]), (['a', _m.ObjectPath('/b')], ['a', '/b']), ((1, 'a'), [1, 'a']), ((1, 2), [1, 2]), ({_m.ObjectPath('/k'): 1}, {'/k': 1}),
+                ({_m.Signature('i'): 's'}, {'i': 's'}), ([], []), ({}, {}), (bytearray(b'ab'), [97, 98])]
+    for pyv, want in inferred * 2:
+        for off in (0, 1, 4):
+            for le in (True, False):
+                n += 1
+                try:
+                    cnt, chunks = with_alarm(20, lambda: _m.marshal('v', [pyv], off, le))
+                    raw = b''.join(chunks)
+                    m2, out = with_alarm(20, lambda: _m.unmarshal('v', b'\x33' * off + raw, off, le))
+                except Exception as e:
+                    return n, 'variant round trip of the Python value %r raised %s: %s' % (pyv, type(e).__name__, e), {'value': repr(pyv), 'offset': off, 'little_endian': le}
+                if out != [want] or m2 != cnt or cnt != len(raw):
+                    return n, 'variant round trip of %r at offset %d (le=%s) gives %r (%d/%d bytes), expected %r' % (pyv, off, le, out, m2, cnt, [want]), {'value': repr(pyv), 'offset': off, 'little_endian': le}
     for ct in take:
         for _ in range(2):
             vals, sig = [W.gen_value(ct, rnd)], ct
